@@ -93,6 +93,8 @@ SHAPE_PRED_RE = _re.compile(r"^core::result::Result::<.*>::(is_ok|is_err)$|^core
 
 
 def default_inlinable(F, callee, hof=False):
+    if callee is not None and callee.body is not None and callee.kind == "fnptr_shim" and _re.search(r"\{signal_hook[\w]*::", callee.name):
+        return True               # `f(x)` where the generic `f` was instantiated with a workspace function item: the shim just forwards
     if callee is None or callee.body is None or callee.kind not in ("item", "closure") or callee.crate == "vroots":
         return False
     if callee.local:
@@ -229,6 +231,8 @@ def _const_discr(F, e):
         b = deep_strip(e[1])
         if b[0] == "agg" and b[1][0] == "adt" and len(b[1]) > 4 and b[1][4] is not None:
             return b[1][4]
+        if b[0] == "const" and b[4] is None and len(b) > 6 and isinstance(b[6], str) and b[6].endswith("::None") and (b[3] or "").startswith("core::option::Option<"):
+            return KNOWN_VARIANTS["None"]        # `Option::<usize>::None` printed without a variant field (non-scalar layout)
         if b[0] == "const" and b[4] is not None:
             v = b[4]
             if v in KNOWN_VARIANTS and (b[2] or b[3] or "").startswith(("core::option::Option", "core::result::Result", "core::ops::control_flow::ControlFlow")):
@@ -401,6 +405,8 @@ def _variant_of_def(F, n, site):
         return r["vi"]
     if r["k"] == "use" and r["o"]["k"] == "const":
         c = r["o"]["c"]
+        if c.get("variant") is None and (c.get("repr") or "").endswith("::None") and (c.get("ty") or "").startswith("core::option::Option<"):
+            return KNOWN_VARIANTS["None"]
         if c.get("variant") in KNOWN_VARIANTS and (c.get("def") or "").startswith(("core::option::Option", "core::result::Result", "core::ops::control_flow::ControlFlow")):
             return KNOWN_VARIANTS[c["variant"]]
         if c.get("variant") is None and isinstance(c.get("val"), int) and c.get("ty") in ("bool",):
